@@ -182,3 +182,14 @@ impl std::fmt::Display for Histogram {
         Ok(())
     }
 }
+
+/// verification hooks: read access to the raw counts
+#[cfg(robopoker_verif)]
+impl Histogram {
+    pub fn verif_mass(&self) -> usize {
+        self.mass
+    }
+    pub fn verif_counts(&self) -> Vec<(Abstraction, usize)> {
+        self.counts.iter().map(|(a, c)| (*a, *c)).collect()
+    }
+}
